@@ -9,7 +9,7 @@
      * concrete refutations of the parts that are false (with the classifier of the known finding);
      * the full-strength statement as a plain definition, so that the target stays visible.
    Pinned statements only: each theorem is closed by [exact] of a lemma proved in Proofs/. *)
-From VV.M1 Require Import Diff Validate Oracles Known Hyp06 KahnP CreateOnlyP CreateDropP AlterP.
+From VV.M1 Require Import Diff Validate Oracles Known Hyp06 Hyp06b KahnP CreateOnlyP CreateDropP AlterP CoreAlterP.
 From Coq Require Import Permutation.
 
 (* ---------- the full-strength target (a definition, NOT a claim: it is refuted below) ---------- *)
@@ -260,6 +260,28 @@ Proof. exact hyp_C06_change_sound. Qed.
 Print Assumptions C06_core_partial3_cases.
 Check C06_core_partial3_cases : forall c, hyp_C06_change c = true -> model_stepwise_ok c = true.
 
+(* ---------- the whole property on the sub-class "common tables are altered by mix-class groups" ---------- *)
+(* PARTIAL, strictly larger than C06_core_partial3: c06_core (Corr/Hyp06b.v) asks the same of the baseline,
+   the models and the cross-table conditions (c06_cross) as c06_change, but the group of a common table may be
+   of the C01 "mix" class (Corr/Hyp.v mix_only): added columns may carry inline unique / index / foreign_key
+   declarations that are private to them and already listed by the normalised target (replay promotes them,
+   the planner's AddConstraint is skipped); dropped columns may be mentioned by constraints over them alone
+   (drop_column_from_constraints removes these, the planner emits no RemoveConstraint) and may carry inline
+   declarations with private keys; a removed foreign key may be declared inline (RemoveConstraint clears the
+   declaration); other removed constraints must not be the cover of an inline declaration.
+   Still missing for C06_full: RemoveConstraint of unique / index constraints that clear an inline declaration,
+   multi-column constraints all of whose columns are dropped, foreign keys from a common table to a table
+   created by the same plan, and the refuted classes. *)
+Theorem C06_core : forall B T, baseline_ok B = true -> c06_core B T = true -> plan_stepwise_ok B T = true.
+Proof. exact c06_core_sound. Qed.
+Print Assumptions C06_core.
+Check C06_core : forall B T, baseline_ok B = true -> c06_core B T = true -> plan_stepwise_ok B T = true.
+
+Theorem C06_core_cases : forall c, hyp_C06_core c = true -> model_stepwise_ok c = true.
+Proof. exact hyp_C06_core_sound. Qed.
+Print Assumptions C06_core_cases.
+Check C06_core_cases : forall c, hyp_C06_core c = true -> model_stepwise_ok c = true.
+
 (* ---------- refutations (R): the planner really emits these plans ---------- *)
 (* D2: DeleteTable is emitted before the RemoveConstraint of a surviving table's FK to it *)
 Theorem C06_delete_before_remove_fk_refuted :
@@ -384,3 +406,13 @@ Example C06_core_partial3_nonvacuous :
   (exists acts, diff_actions w_alt_B w_alt_T = Ok acts /\ List.length acts = 9) /\
   plan_stepwise_ok w_alt_B w_alt_T = true.
 Proof. exact AlterP.C06_core_partial3_nonvacuous. Qed.
+
+(* outside c06_change: a column with an inline index dropped (its index goes with it), a foreign key declared
+   inline removed (the declaration is cleared), a column with inline unique / named index / foreign key added
+   (three AddConstraint skipped): 11 actions, every prefix consistent *)
+Example C06_core_nonvacuous :
+  baseline_ok C01HistP.w_core_B = true /\ c06_core C01HistP.w_core_B C01HistP.w_core_T = true /\
+  c06_change C01HistP.w_core_B C01HistP.w_core_T = false /\
+  (exists acts, diff_actions C01HistP.w_core_B C01HistP.w_core_T = Ok acts /\ List.length acts = 11) /\
+  plan_stepwise_ok C01HistP.w_core_B C01HistP.w_core_T = true.
+Proof. exact w_c06_core_hyp. Qed.
